@@ -9,6 +9,22 @@ NATIVE = {"byte": "schar", "char": "text", "short": "short", "int": "int", "floa
 FMT = {1: None, 2: "64BIT_OFFSET", 5: "64BIT_DATA"}
 
 
+# the second file of an execution (cross-file attribute copies): global x1 (int), x2 (double), variable attribute x3 (short)
+# (each in an attribute list of its own, so that renaming one never collides with another)
+OTHER_SRC = {"int": (-1, "x1"), "double": (0, "x2"), "short": (1, "x3")}
+
+
+def other_file_steps():
+    S = lambda **k: dict(k, f=1, other=1, obs=[])
+    return [S(op="create", path="b.nc", cmode=["CLOBBER"]), S(op="def_dim", name="q", len=2),
+            S(op="def_var", name="w", xtype="int", dims=[0]), S(op="def_var", name="w2", xtype="int", dims=[0]),
+            S(op="def_var", name="sink", xtype="int", dims=[0]),
+            S(op="put_att", v=-1, name="x1", xtype="int", itype="int", vals=[7], n=1),
+            S(op="put_att", v=0, name="x2", xtype="double", itype="double", vals=[9, 9, 9], n=3),
+            S(op="put_att", v=1, name="x3", xtype="short", itype="short", vals=[7, 8], n=2),
+            S(op="redef") if False else S(op="noop")]
+
+
 def bernstein(s):
     h = 5381
     for ch in s.encode("utf-8"):
@@ -82,6 +98,7 @@ class Translator:
         self.fresh = True
         self.tab = None
         self.saved = None
+        self.other_names = {}
 
     def N(self, n):
         return self.tab[n] if n in self.tab else (n, n)
@@ -151,6 +168,8 @@ class Translator:
         self.tab = name_table(names, rng, self.family)
         cm = ["CLOBBER"] + ([FMT[self.fmt]] if FMT[self.fmt] else [])
         out = [{"op": "create", "path": "a.nc", "cmode": cm, "fmtno": self.fmt, "info": self.info or None, "obs": ["exists"]}]
+        if any(c["c"] in ("copy_att_from", "copy_att_to") for c in hist):
+            out += other_file_steps()        # kept in define mode: attributes can be renamed and received there
         for c in hist:
             k = c["c"]
             ok = c.get("rc") == "NC_NOERR"
@@ -192,6 +211,28 @@ class Translator:
                     a = {"op": k, "d": d, "new": rawn, "norm_new": normn, "oldlen": oldlen, "newlen": newlen}
                     if ok:
                         self.dims[d][0] = normn
+            elif k == "copy_att_from":
+                # attribute "x" of the second file (label 1; OTHER_ATTS) copied into this file under the name the model chose:
+                # the source attribute is first renamed there (a call on the other file), then copied across
+                at = c["a"]
+                raw, norm = self.N(at["name"])
+                src_t, src_name = OTHER_SRC[at["xtype"]]
+                vals = attvals(at["xtype"], at["vals"], rng)
+                cur = self.other_names.get(src_name, src_name)
+                pre = []
+                if cur != raw:
+                    pre.append({"op": "rename_att", "f": 1, "v": src_t, "name": cur, "new": raw, "other": 1, "obs": []})
+                    self.other_names[src_name] = raw
+                pre.append({"op": "noop", "f": 1, "other": 1, "other_mark": 1, "obs": ["sha_other"]})
+                out += pre
+                a = {"op": "copy_att", "f": 1, "v": src_t, "name": raw, "norm": norm, "f2": 0, "v2": c["t2"],
+                     "src": {"norm": norm, "xtype": at["xtype"], "n": len(vals), "vals": vals}, "obs": []}
+                out.append(a)
+                a = {"op": "noop", "f": 0, "other_must_stay": 1, "obs": self.obs + ["sha_other"]}
+            elif k == "copy_att_to":
+                raw, norm = self.N(c["name"])
+                out.append({"op": "copy_att", "f": 0, "v": c["t1"], "name": raw, "norm": norm, "f2": 1, "v2": 2, "to_other": 1, "obs": []})
+                a = {"op": "noop", "f": 0, "obs": self.obs}
             elif k == "copy_att":
                 raw, norm = self.N(c["name"])
                 a = {"op": "copy_att", "v": c["t1"], "name": raw, "norm": norm, "v2": c["t2"]}
